@@ -213,6 +213,76 @@ def rule_r3(facts, col):
                         col.bad("C01.R3", key, body.where(b2), "Circ.len differs from the byte count that was mapped", {})
 
 
+def _is_capacity(e):
+    p = peel(e, through_try=False)
+    return p is not None and p.k == "call" and (p.q or "").endswith("BufferState::capacity")
+
+
+def rule_r6(facts, col, rule_id="C01.R6"):
+    """a stored ring position is < capacity: it is `x % capacity()`, the constant 0, or - for the compare-and-subtract form -
+    the un-subtracted value reaches the store only behind an edge establishing `value < capacity()`"""
+    for body in facts.bodies:
+        if body.kind == "closure":
+            continue
+        for bb, fld, st in ring_writes(body):
+            if fld not in ("rpos", "wpos"):
+                continue
+            key = "%s:%s<capacity" % (body.q, fld)
+            e = body.rvalue_expr(st["rv"])
+            p = peel(e, through_try=False)
+            if p.k == "bin" and p.op == "Rem" and _is_capacity(p.b):
+                col.ok(rule_id, key, body.where(bb), "stored as (..) % capacity()")
+                continue
+            if p.k == "const" and p.v == 0:
+                col.ok(rule_id, key, body.where(bb), "stored as 0")
+                continue
+            if p.k != "multi":
+                col.silent(rule_id, key, body.where(bb), "form of the stored position not recognised")
+                continue
+            L = p.local
+            defs = body.defs().get(L, [])
+            defblocks = {d[0] for d in defs}
+            good_edges = set()
+            any_cmp = False
+            for edge, f in edge_facts(body):
+                if f[0] in ("Lt", "Le", "Gt", "Ge"):
+                    a_, b_ = f[1], f[2]
+                    la = peel(a_, through_try=False)
+                    lb = peel(b_, through_try=False)
+                    if la is not None and la.k == "multi" and la.local == L and _is_capacity(b_):
+                        any_cmp = True
+                        if f[0] == "Lt":
+                            good_edges.add(edge)
+                    if lb is not None and lb.k == "multi" and lb.local == L and _is_capacity(a_):
+                        any_cmp = True
+                        if f[0] == "Gt":
+                            good_edges.add(edge)
+            if not any_cmp:
+                col.silent(rule_id, key, body.where(bb), "no comparison of the position with capacity() found")
+                continue
+            probs = []
+            for dbb, si, kind, payload in defs:
+                if kind != "rv":
+                    continue
+                ev = peel(body.rvalue_expr(payload), through_try=False)
+                reduced = ev.k == "bin" and ((ev.op == "Rem" and _is_capacity(ev.b)) or (ev.op == "Sub" and _is_capacity(ev.b))) or \
+                    (ev.k == "const" and ev.v == 0)
+                if reduced:
+                    continue
+                r = body.reachable(dbb, avoid=defblocks - {dbb}, edge_filter=lambda a_, b_: (a_, b_) not in good_edges)
+                if bb in r:
+                    probs.append(body.where(dbb))
+            if probs:
+                col.bad(rule_id, key, body.where(bb),
+                        "the un-wrapped value computed at %s can reach the store into BufferState.%s without passing an edge that "
+                        "establishes value < capacity() (the comparison admits value == capacity()): a %s that ends exactly on the ring "
+                        "end leaves the position at capacity instead of 0; windows then start one lap off and code that relies on "
+                        "position < capacity (tag lookup, range arithmetic) misbehaves or panics" % (
+                            probs[0], fld, "consume" if fld == "rpos" else "commit"), {})
+            else:
+                col.ok(rule_id, key, body.where(bb), "compare-and-subtract wrap: un-subtracted value only behind value < capacity()")
+
+
 def run(ctx):
     facts = ctx.facts("default")
     ctx.anchor("C01", STATE_ADT in facts.adts and BUFFER_ADT in facts.adts, "circular_buffer::{BufferState,Buffer}")
@@ -220,6 +290,8 @@ def run(ctx):
     rule_r2(facts, ctx)
     rule_r3(facts, ctx)
     rule_r4(facts, ctx)
+    rule_r6(facts, ctx)
+    ctx.floor("C01.R6", 2, "stores of rpos (consume) and wpos (produce)")
     ctx.floor("C01.R4", 2, "consume and produce bodies")
     from . import c03
     c03.rule_r9(facts, ctx, rule_id="C01.R5")
